@@ -39,6 +39,21 @@ fn cdf_table(mean: f64, nmax: u64) -> Vec<f64> {
     out
 }
 
+/// P[N > n] = sum_{k > n} pmf(k), summed smallest terms first (no cancellation against 1)
+fn upper_tail(mean: f64, n: u64) -> f64 {
+    let mut terms = vec![];
+    let mut k = n + 1;
+    loop {
+        let t = ln_pmf(mean, k).exp();
+        terms.push(t);
+        if (k as f64) > mean + 5.0 && t < 1e-40 {
+            break;
+        }
+        k += 1;
+    }
+    terms.iter().rev().sum::<f64>()
+}
+
 pub fn grid(quick: bool) -> Vec<(f64, f64, u64)> {
     let rates = [0.001, 0.01, 0.1, 0.5, 1.0, 3.0];
     let eps = [0.5, 0.1, 1e-3, 1e-6, 1e-9];
@@ -175,6 +190,63 @@ pub fn run(ctx: &mut Ctx) -> (String, Value, Vec<String>) {
             samples.push(json!({"rate": rate, "epsilon": eps, "delta": delta, "mean": mean, "returned": n, "cdf_at_returned": cdf[n as usize]}));
         }
     }
+    // sparse processes (mean far below 1 up to a few arrivals) with exceedance probabilities down
+    // to 1e-12: the upper tail decays like mean^k / k! only, so "a few standard deviations above
+    // the mean" is nowhere near the quantile.  The oracle sums the upper tail directly (accurate
+    // to relative 1e-12 where 1 - CDF cancels); band: relative 1e-6 of epsilon plus 5e-14 for
+    // the rounding of a sum that is close to 1.
+    let mut sparse_points = 0u64;
+    {
+        let tail = upper_tail;
+        let small_means = [0.001, 0.002, 0.005, 0.01, 0.02, 0.05, 0.1, 0.2, 0.3, 0.5, 0.7, 0.9, 1.5, 2.5, 4.5];
+        let all_eps = [0.5, 0.1, 1e-2, 1e-3, 1e-4, 1e-5, 1e-6, 1e-7, 1e-8, 1e-9, 1e-10, 1e-11, 1e-12];
+        for m in small_means {
+            for (rate, delta) in [(m, 1u64), (m / 8.0, 8u64), (m / 1000.0, 1000u64)] {
+                let mean = rate * delta as f64;
+                let mut prev: Option<(f64, u64)> = None;
+                for eps in all_eps {
+                    evals += 1;
+                    sparse_points += 1;
+                    let case = json!({"rate": rate, "epsilon": eps, "delta": delta});
+                    let n = match with_timeout(5.0, move || ApproximatedPoisson::new(rate, eps).number_arrivals(d(delta))) {
+                        Ok(n) => n as u64,
+                        Err(Some(e)) => {
+                            ctx.violation("arrival::ApproximatedPoisson::number_arrivals#panic", &format!("rate {rate} eps {eps} delta {delta} (mean {mean}): panic {e}"), "poisson", case);
+                            continue;
+                        }
+                        Err(None) => {
+                            ctx.violation("arrival::ApproximatedPoisson::number_arrivals#does-not-terminate", &format!("rate {rate} eps {eps} delta {delta} (mean {mean}): no answer within the time cap"), "poisson", case);
+                            break;
+                        }
+                    };
+                    let band = 1e-6 * eps + 5e-14;
+                    let t_n = tail(mean, n);
+                    let ok_hi = t_n <= eps + band;
+                    let ok_lo = n == 0 || tail(mean, n - 1) > eps - band;
+                    if !ok_hi || !ok_lo {
+                        let want = (0..200u64).find(|k| tail(mean, *k) <= eps).unwrap_or(200);
+                        let sym = if !ok_hi { "below-quantile" } else { "above-quantile" };
+                        ctx.violation(
+                            &format!("arrival::ApproximatedPoisson::number_arrivals#{sym}+sparse"),
+                            &format!("rate {rate} eps {eps} delta {delta} (mean {mean}): returned {n}, the (1-eps) quantile is {want} (P[N > {n}] = {t_n:e})"),
+                            "poisson",
+                            case.clone(),
+                        );
+                    }
+                    // a smaller epsilon never lowers the quantile
+                    if let Some((e0, n0)) = prev {
+                        if n < n0 {
+                            ctx.violation("arrival::ApproximatedPoisson::number_arrivals#not-monotone-in-epsilon+sparse", &format!("rate {rate} delta {delta}: {n0} for eps {e0} but {n} for eps {eps}"), "poisson", case.clone());
+                        }
+                    }
+                    prev = Some((eps, n));
+                    if mean >= 1.0 || eps <= 1e-6 {
+                        nontrivial += 1;
+                    }
+                }
+            }
+        }
+    }
     // a source with rate 0 never releases anything: the quantile is 0 for every interval
     for eps in [0.5, 1e-3, 1e-9] {
         for delta in [1u64, 10, 1000] {
@@ -196,6 +268,8 @@ pub fn run(ctx: &mut Ctx) -> (String, Value, Vec<String>) {
         "distinct_nontrivial": nontrivial,
         "rule": "every (rate, epsilon, delta) grid point with rate*delta in {0..50 densely, 60 ... 5000 sparsely}: number_arrivals (watchdog-guarded) vs the smallest n with CDF(n) >= 1-eps under an independent log-space pmf with compensated summation (tolerance band 1e-9 around the threshold); pmf compared at 5 points each; the object obtained through Poisson::approximate and a jittered clone must agree; non-trivial = mean >= 1",
         "grid_points": g.len(),
+        "sparse_process_points": sparse_points,
+        "sparse_process_rule": "means 0.001 .. 4.5 (15 values, each as three rate/delta pairs) x epsilon 0.5 .. 1e-12 (13 values): returned n must satisfy P[N > n] <= eps and P[N > n-1] > eps with the upper tail summed directly (band 1e-6*eps + 5e-14); a smaller epsilon never lowers the answer",
         "samples": samples,
         "exhaustive": true,
     });
@@ -229,6 +303,13 @@ pub fn replay(kind: &str, case: &Value) -> bool {
             let cdf = cdf_table(mean, (mean + 12.0 * mean.sqrt() + 60.0) as u64 + n as u64);
             let want = (0..cdf.len()).find(|k| cdf[*k] >= 1.0 - eps).unwrap_or(cdf.len());
             println!("replay: library {n}, quantile {want}");
+            if mean < 5.0 {
+                // sparse processes: the direct upper tail decides (see run)
+                let band = 1e-6 * eps + 5e-14;
+                let (t1, t0) = (upper_tail(mean, n as u64), if n == 0 { 1.0 } else { upper_tail(mean, n as u64 - 1) });
+                println!("replay: P[N > {n}] = {t1:e}, P[N > {n} - 1] = {t0:e}, epsilon {eps:e}");
+                return !(t1 <= eps + band && (n == 0 || t0 > eps - band));
+            }
             !(cdf[n] >= 1.0 - eps - 1e-9 && (n == 0 || cdf[n - 1] < 1.0 - eps + 1e-9))
         }
         Err(e) => {
